@@ -41,3 +41,29 @@ Print Assumptions C15_trig_recurrence.
 
 Example C15_example : visited 15 3 2 2 = [1; 13; 9; 5] /\ odd_multiples 3 2 = [1; 5; 9; 13] /\ maxN_one 256 = 255 /\ maxN_two 256 = 191.
 Proof. vm_compute. repeat split. Qed.
+
+(* ---- the two-point scheme ---- *)
+From LV Require Import Quad.QuadTwo.
+(* at the level that doubles the m-point rule of the two-point sequence (m + 1 = 3 J, spacing 2 s, maxN + 1 = 6 J s)
+   sumTerms with skip 3 visits exactly the points t*s - 1, t odd, not a multiple of 3, t < 6 J -- each once, all
+   inside the grid -- for every J and s (the code has J, s powers of two) *)
+Theorem C15_twopoint_level_indices : forall J s, 1 <= s -> 1 <= J ->
+  Permutation (twopoint_new J s) (visited (6 * J * s - 1) ((2 * (3 * J - 1) - 1) / 3) s 3).
+Proof. exact twopoint_level_indices. Qed.
+Print Assumptions C15_twopoint_level_indices.
+Theorem C15_twopoint_new_char : forall J s j, In j (twopoint_new J s) <->
+  exists t, j = t * s - 1 /\ t < 6 * J /\ t mod 2 = 1 /\ t mod 3 <> 0.
+Proof. exact twopoint_new_char. Qed.
+Print Assumptions C15_twopoint_new_char.
+Theorem C15_twopoint_level_bounds : forall J s j, 1 <= s -> 1 <= J ->
+  In j (visited (6 * J * s - 1) ((2 * (3 * J - 1) - 1) / 3) s 3) -> j < 6 * J * s - 1.
+Proof. exact twopoint_level_bounds. Qed.
+Print Assumptions C15_twopoint_level_bounds.
+(* T2m1 = Tm + Tn - Tn12 + sumTerms(skip 3) counts every point of the finer rule exactly once *)
+Theorem C15_two_rule_doubling : forall wf s J, 1 <= J ->
+  rule wf s (6 * J - 1) = Rplus (Rplus (rule wf (2 * s) (3 * J - 1)) (Rminus (rule wf (3 * s) (2 * J - 1)) (rule wf (6 * s) (J - 1))))
+                                (Rsum (map wf (twopoint_new J s))).
+Proof. exact two_rule_doubling. Qed.
+Print Assumptions C15_two_rule_doubling.
+Example C15_example_two : twopoint_new 2 4 = [3; 27; 19; 43] /\ visited 47 3 4 3 = [3; 43; 27; 19].
+Proof. vm_compute. split; reflexivity. Qed.
